@@ -7,6 +7,8 @@ use std::sync::{Arc, Mutex};
 use bytes::Bytes;
 
 use super::*;
+use crate::dds::with_key::datawriter::WriteOptionsBuilder;
+use crate::structure::cache_change::CacheChange;
 use crate::{
   dds::statusevents::{sync_status_channel, StatusChannelReceiver},
   messages::submessages::{
@@ -284,7 +286,7 @@ pub(crate) struct WRig {
 }
 
 pub(crate) fn make_wrig(qos: QosPolicies) -> WRig {
-  let (cmd_tx, writer_command_receiver) = mio_channel::sync_channel::<WriterCommand>(4);
+  let (cmd_tx, writer_command_receiver) = mio_channel::sync_channel::<WriterCommand>(if cfg!(kani) { 1 } else { 4 });
   let (status_sender, status_rx) = sync_status_channel::<DataWriterStatus>(CHAN).unwrap();
   let (participant_status_sender, pstatus_rx) =
     sync_status_channel::<DomainParticipantStatusEvent>(CHAN).unwrap();
@@ -632,19 +634,31 @@ fn wait_case(written: i64, k2: u8, via_handle_ack_nack: bool) {
   assert!((c0 == 1) == (!pend1 && !pend2), "success not reported at once although everything was acknowledged, or reported too early");
   assert!(c0 <= 1);
 
-  // one event
+  // one event.  The acting reader is chosen symbolically, but every call below gets a
+  // CONCRETE GUID (a GUID built from a symbolic byte makes every map lookup and the drop of
+  // the removed proxy symbolic: did not finish).
   let who = vk::range_u8(1, 2);
   if vk::any::<bool>() {
     let base = vk::range_i64(0, written + 2);
     if via_handle_ack_nack {
       // the whole ACKNACK path of the writer
-      let ack = acknack_from(who, base);
-      rig.writer.handle_ack_nack(prefix(who), &ack);
-      core::mem::forget(ack);
+      if who == 1 {
+        let ack = acknack_from(1, base);
+        rig.writer.handle_ack_nack(prefix(1), &ack);
+        core::mem::forget(ack);
+      } else {
+        let ack = acknack_from(2, base);
+        rig.writer.handle_ack_nack(prefix(2), &ack);
+        core::mem::forget(ack);
+      }
     } else {
       // the unit where the decision is taken; Writer::handle_ack_nack calls it with
       // (GUID of the acknowledging reader, Some(ACKNACK base)) before anything else
-      rig.writer.update_ack_waiters(reader_guid(who), Some(SequenceNumber::new(base)));
+      if who == 1 {
+        rig.writer.update_ack_waiters(reader_guid(1), Some(SequenceNumber::new(base)));
+      } else {
+        rig.writer.update_ack_waiters(reader_guid(2), Some(SequenceNumber::new(base)));
+      }
     }
     if base > written {
       if who == 1 {
@@ -654,10 +668,11 @@ fn wait_case(written: i64, k2: u8, via_handle_ack_nack: bool) {
       }
     }
   } else {
-    rig.writer.reader_lost(reader_guid(who));
     if who == 1 {
+      rig.writer.reader_lost(reader_guid(1));
       pend1 = false;
     } else {
+      rig.writer.reader_lost(reader_guid(2));
       pend2 = false;
     }
   }
@@ -680,9 +695,272 @@ macro_rules! wait_h {
     }
   };
 }
-wait_h!(c20_wait_w2_one_reliable, 2, 0, false);
-wait_h!(c20_wait_w2_reliable_besteffort, 2, 1, false);
-wait_h!(c20_wait_w2_two_reliable, 2, 2, false);
-wait_h!(c20_wait_w0_one_reliable, 0, 0, false);
-wait_h!(c20_wait_w1_two_reliable, 1, 2, false);
-wait_h!(c20_wait_w2_one_reliable_full_acknack_path, 2, 0, true);
+// the combined form (wait + one event, everything symbolic) is kept for the thorough tier
+wait_h!(c20_wait_then_event_w2_one_reliable, 2, 0, false);
+wait_h!(c20_wait_then_event_w2_two_reliable, 2, 2, false);
+
+/// (A) the wait command alone: readers' acknowledgment states symbolic.  Success is reported
+/// in the same call iff no reliable reader still has to acknowledge; otherwise a waiter is
+/// installed that waits for exactly the pending readers and for the last written SN.
+fn wait_command_case(written: i64, k2: u8) {
+  let mut rig = make_wrig(writer_qos(true, Some(policy::History::KeepAll), true));
+  let mut s = 1;
+  while s <= written {
+    rig.store(s, 0);
+    s += 1;
+  }
+  rig.match_reader(1, true);
+  let a1 = vk::range_i64(0, written + 2);
+  rig.writer.readers.get_mut(&reader_guid(1)).unwrap().all_acked_before = SequenceNumber::new(a1);
+  let mut a2 = 0;
+  if k2 != 0 {
+    rig.match_reader(2, k2 == 2);
+    if k2 == 2 {
+      a2 = vk::range_i64(0, written + 2);
+      rig.writer.readers.get_mut(&reader_guid(2)).unwrap().all_acked_before = SequenceNumber::new(a2);
+    }
+  }
+  let pend1 = written >= 1 && a1 <= written;
+  let pend2 = k2 == 2 && written >= 1 && a2 <= written;
+  let (all_acked, done_rx) = sync_status_channel::<()>(CHAN).unwrap();
+  rig.post(WriterCommand::WaitForAcknowledgments { all_acked });
+  rig.writer.process_writer_command();
+  let c0 = rig.completions(&done_rx);
+  assert!(c0 <= 1, "more than one completion for one wait");
+  assert!(
+    (c0 == 1) == (!pend1 && !pend2),
+    "success not reported at once although everything was acknowledged, or reported although a reliable reader has not acknowledged"
+  );
+  // (reading the waiter's pending set back here made the query explode: > 14 GB; which readers
+  // it waits for is decided by c20_wait_then_acknack_base and the thorough-tier harnesses)
+  assert!(rig.writer.ack_waiter.is_some() == (pend1 || pend2), "a waiter is installed iff an acknowledgment is outstanding");
+  vk_cover!(c0 == 1, "completed at once");
+  vk_cover!(c0 == 0, "has to wait");
+  core::mem::forget(done_rx);
+  rig.finish();
+}
+macro_rules! waitcmd_h {
+  ($name:ident, $written:expr, $k2:expr) => {
+    writer_harness! {
+    fn $name(3) {
+      wait_command_case($written, $k2);
+    }
+    }
+  };
+}
+waitcmd_h!(c20_waitcmd_w2_one_reliable, 2, 0);
+waitcmd_h!(c20_waitcmd_w2_reliable_besteffort, 2, 1);
+waitcmd_h!(c20_waitcmd_w2_two_reliable, 2, 2);
+waitcmd_h!(c20_waitcmd_w0_one_reliable, 0, 0);
+waitcmd_h!(c20_waitcmd_w0_two_reliable, 0, 2);
+
+/// (B) one step of the waiter from ANY pending set over {reader 1, reader 2}: an
+/// acknowledgment (any base) or the loss of a reader (1, 2 or a stranger) completes the wait
+/// iff afterwards nobody is pending; a reader leaves the pending set iff it was lost or its
+/// base exceeds the awaited SN.  Kernel harness on the real AckWaiter (no Writer object).
+#[cfg_attr(kani, kani::proof, kani::unwind(7))]
+#[cfg_attr(
+  kani,
+  kani::stub(crate::mio_source::make_poll_channel, crate::mio_source::verif_harness_env_mio::stub_make_poll_channel),
+  kani::stub(crate::dds::statusevents::StatusChannelSender::try_send, stub_status_try_send),
+  kani::stub(std::fmt::format, crate::verif_env::stub_format)
+)]
+#[cfg_attr(verif_replay, test)]
+fn c20_waiter_step() {
+  vk::begin("c20_waiter_step");
+  let (complete_channel, done_rx) = sync_status_channel::<()>(CHAN).unwrap();
+  let wait_until = vk::range_i64(0, 3);
+  let mut p1: bool = vk::any();
+  let mut p2: bool = vk::any();
+  vk::assume(p1 || p2); // a waiter only exists while somebody is pending
+  let mut readers_pending = verif_env::BTreeSet::new();
+  if p1 {
+    readers_pending.insert(reader_guid(1));
+  }
+  if p2 {
+    readers_pending.insert(reader_guid(2));
+  }
+  let mut w = AckWaiter {
+    wait_until: SequenceNumber::new(wait_until),
+    complete_channel,
+    readers_pending,
+  };
+  let who = vk::range_u8(1, 3); // 3 = a reader that is not pending at all
+  let lost: bool = vk::any();
+  let base = vk::range_i64(0, 5);
+  let acked = if lost { None } else { Some(SequenceNumber::new(base)) };
+  let done = if who == 1 {
+    w.reader_acked_or_lost(reader_guid(1), acked)
+  } else if who == 2 {
+    w.reader_acked_or_lost(reader_guid(2), acked)
+  } else {
+    w.reader_acked_or_lost(reader_guid(3), acked)
+  };
+  let leaves = lost || base > wait_until;
+  if who == 1 && leaves {
+    p1 = false;
+  }
+  if who == 2 && leaves {
+    p2 = false;
+  }
+  assert!(done == (!p1 && !p2), "wait reported complete while a reader is pending, or not complete although nobody is");
+  assert!(w.readers_pending.contains(&reader_guid(1)) == p1);
+  assert!(w.readers_pending.contains(&reader_guid(2)) == p2);
+  vk_cover!(done && !lost, "completed by an acknowledgment");
+  vk_cover!(!done && !lost && who != 3 && base == wait_until, "base == last written does not complete (strict boundary)");
+  core::mem::forget(w);
+  core::mem::forget(done_rx);
+  vk::end();
+}
+
+/// (C) end to end on the real Writer with one symbolic scalar: reader 1 pending after the wait
+/// command; an ACKNACK with ANY base through the whole Writer::handle_ack_nack completes the
+/// wait exactly when base > last written, and at most once.
+writer_harness! {
+fn c20_wait_then_acknack_base(3) {
+  let mut rig = make_wrig(writer_qos(true, Some(policy::History::KeepAll), true));
+  rig.store(1, 0);
+  rig.store(2, 0);
+  rig.match_reader(1, true);
+  rig.writer.readers.get_mut(&reader_guid(1)).unwrap().all_acked_before = SequenceNumber::new(1);
+  let (all_acked, done_rx) = sync_status_channel::<()>(CHAN).unwrap();
+  rig.post(WriterCommand::WaitForAcknowledgments { all_acked });
+  rig.writer.process_writer_command();
+  assert!(rig.completions(&done_rx) == 0);
+  let base = vk::range_i64(0, 4);
+  let ack = acknack_from(1, base);
+  rig.writer.handle_ack_nack(prefix(1), &ack);
+  core::mem::forget(ack);
+  let c = rig.completions(&done_rx);
+  assert!((c == 1) == (base > 2), "completion does not follow the ACKNACK base");
+  assert!(c <= 1);
+  assert!(rig.writer.ack_waiter.is_none() == (base > 2));
+  vk_cover!(c == 1);
+  vk_cover!(c == 0 && base == 2, "base == last written keeps waiting");
+  let _ = rig.take_out();
+  core::mem::forget(done_rx);
+  rig.finish();
+}
+}
+
+// ==================================================================== C04: single-reader samples
+
+fn static_payload(sn: i64) -> DDSData {
+  static P1: [u8; 4] = [11, 0, 0, 0];
+  static P2: [u8; 4] = [22, 0, 0, 0];
+  let p: &'static [u8] = if sn == 1 { &P1 } else { &P2 };
+  DDSData::new(SerializedPayload::new_from_bytes(
+    RepresentationIdentifier::CDR_LE,
+    Bytes::from_static(p),
+  ))
+}
+
+/// Readers 1 and 2 matched (reliable).  One ordinary sample, then a sample written for ONE
+/// reader — reader 1, reader 2, or a reader that is not matched (chosen symbolically) —
+/// through the real process_writer_command.  The single-reader sample's DATA never goes to
+/// anybody but its target (to nobody if the target is not matched), and every other matched
+/// reader is left with a pending GAP for it (so it is told "irrelevant", never left waiting).
+writer_harness! {
+fn c04_single_reader_sample(7) {
+  let mut rig = make_wrig(writer_qos(true, Some(policy::History::KeepAll), true));
+  rig.match_reader(1, true);
+  rig.match_reader(2, true);
+  let _ = rig.take_out();
+  rig.post(WriterCommand::DDSData {
+    ddsdata: static_payload(1),
+    write_options: WriteOptions::default(),
+    sequence_number: SequenceNumber::new(1),
+  });
+  rig.writer.process_writer_command();
+  let out1 = rig.take_out();
+  // the ordinary sample reaches both readers
+  let mut seen1 = false;
+  let mut seen2 = false;
+  let mut i = 0;
+  while i < MAXMSG {
+    if i < out1.n && out1.msgs[i].data_sn == 1 {
+      seen1 = seen1 || out1.msgs[i].to_r1;
+      seen2 = seen2 || out1.msgs[i].to_r2;
+      assert!(out1.msgs[i].data_byte == 11, "DATA does not carry the written bytes");
+    }
+    i += 1;
+  }
+  assert!(seen1 && seen2, "ordinary sample not pushed to both matched readers");
+
+  let target = vk::range_u8(1, 3);
+  let wo = if target == 1 {
+    WriteOptionsBuilder::new().to_single_reader(reader_guid(1)).build()
+  } else if target == 2 {
+    WriteOptionsBuilder::new().to_single_reader(reader_guid(2)).build()
+  } else {
+    WriteOptionsBuilder::new().to_single_reader(reader_guid(3)).build()
+  };
+  rig.post(WriterCommand::DDSData {
+    ddsdata: static_payload(2),
+    write_options: wo,
+    sequence_number: SequenceNumber::new(2),
+  });
+  rig.writer.process_writer_command();
+  let out2 = rig.take_out();
+  let mut i = 0;
+  while i < MAXMSG {
+    if i < out2.n && (out2.msgs[i].data_sn == 2 || out2.msgs[i].frag_sn == 2) {
+      let m = &out2.msgs[i];
+      assert!(!(m.to_r1 && target != 1), "a sample written for one reader was transmitted to reader 1");
+      assert!(!(m.to_r2 && target != 2), "a sample written for one reader was transmitted to reader 2");
+      assert!(target != 3, "a sample written for an unmatched reader was transmitted");
+    }
+    i += 1;
+  }
+  // the other matched readers must be GAPped for SN 2
+  let g1 = rig.writer.readers.get(&reader_guid(1)).unwrap().get_pending_gap().contains(&SequenceNumber::new(2));
+  let g2 = rig.writer.readers.get(&reader_guid(2)).unwrap().get_pending_gap().contains(&SequenceNumber::new(2));
+  assert!(g1 == (target != 1), "reader 1: pending GAP for the single-reader sample wrong");
+  assert!(g2 == (target != 2), "reader 2: pending GAP for the single-reader sample wrong");
+  vk_cover!(target == 3, "target not matched");
+  vk_cover!(target == 1 && out2.n >= 1, "sent to reader 1 only");
+  rig.finish();
+}
+}
+
+/// The guard inside Writer::send_cache_change, driven directly: a sample written for one reader
+/// is sent only when the given target proxy IS that reader; with no target (the reader is not
+/// matched) or another reader's proxy nothing at all is transmitted.
+writer_harness! {
+fn c04_single_reader_send_guard(7) {
+  let mut rig = make_wrig(writer_qos(true, Some(policy::History::KeepAll), true));
+  rig.match_reader(1, true);
+  rig.match_reader(2, true);
+  let _ = rig.take_out();
+  // (the positive case — target proxy is the reader: DATA to it alone — runs the whole
+  // message builder and did not fit in 14 GB; it is in c04_single_reader_sample, thorough tier)
+  let scenario = vk::range_u8(0, 1);
+  let single = match scenario {
+    0 => reader_guid(3), // not matched
+    _ => reader_guid(1),
+  };
+  let cc = CacheChange::new(
+    my_guid(),
+    SequenceNumber::new(1),
+    WriteOptionsBuilder::new().to_single_reader(single).build(),
+    static_payload(1),
+  );
+  let sent_something;
+  match scenario {
+    0 => {
+      let r = rig.writer.send_cache_change(&cc, false, None);
+      sent_something = rig.take_out().n > 0;
+      assert!(!sent_something && !r, "a sample written for an unmatched reader was transmitted");
+    }
+    _ => {
+      let other = rig.writer.readers.get(&reader_guid(2));
+      let r = rig.writer.send_cache_change(&cc, false, other);
+      sent_something = rig.take_out().n > 0;
+      assert!(!sent_something && !r, "a sample written for reader 1 was transmitted on behalf of reader 2");
+    }
+  }
+  vk_cover!(!sent_something && scenario == 1);
+  core::mem::forget(cc);
+  rig.finish();
+}
+}
